@@ -1304,8 +1304,9 @@ def oracle_html_call(call, viol):
             neutral = html_cells(HTML(fill(lambda n, it: sent[n] if whole[n] else "")))
         except Exception:
             neutral = None
-        allowed = {subst(w) for st, _ in (neutral or []) for w in st.split(" ")}
-        foreign = sorted({w for st, _ in got for w in st.split(" ") if w and w not in allowed})
+        # (words as the style machinery sees them: str.split(), i.e. any white space separates)
+        allowed = {subst(w) for st, _ in (neutral or []) for w in st.split()}
+        foreign = sorted({w for st, _ in got for w in st.split() if w and w not in allowed})
         if neutral is not None and foreign and any(sc in st for st, _ in neutral for sc in sent):
             viol.append({"signature": f"{site} | interpolated value adds style words",
                          "msg": f"style words {foreign!r} come from the interpolated value, not from the template: "
@@ -1893,6 +1894,13 @@ HTML_MOD_POOL = [
 # values made of style words, for the attribute holes of the pools
 STYLE_WORD_VALUES = ["ansired", "ansired bold", "ansired bold underline", " bold", "bold ", "a  b", "#ff0000 reverse",
                      "x\tbold", "x\nbold", "bg:ansiblue", "x bg:ansiblue", "class:q", "x class:q"]
+# every class of white space that str.split() separates style words at (str.isspace), followed by a
+# style word; plus look-alikes that are NOT white space (zero-width space, BOM, word joiner)
+WS_CHARS = ["\r", "\x0b", "\x0c", "\x1c", "\x1d", "\x1e", "\x1f", "\x85", "\u00a0", "\u1680", "\u2000", "\u2003",
+            "\u200a", "\u2028", "\u2029", "\u202f", "\u205f", "\u3000", "\t", "\n", " "]
+NOT_WS_CHARS = ["\u200b", "\ufeff", "\u2060", "\u180e", "\x7f"]
+STYLE_WORD_VALUES += ["ansired" + c + "bold" for c in WS_CHARS + NOT_WS_CHARS] + \
+    [c + "underline" for c in WS_CHARS[:8]] + ["#00ff00" + WS_CHARS[8] + "reverse" + WS_CHARS[11] + "bold"]
 
 STYLES = ["", "b", "[ZeroWidthEscape]", "class:x [ZeroWidthEscape]"]
 FRAG_TEXT_ALPHA = ["a", "\n", "世", "\r"]
